@@ -40,6 +40,10 @@ checks = {
    text="Explicit-state model checking of the constraint systems the real compiler emits over the 47-element field: for every API operation x operand-kind pattern x builder and every input tuple, breadth-first search over all values of every other wire (hint outputs included) computes the exact set of satisfiable outputs and compares it with the documented relation; every leaf is re-validated with big-integer arithmetic and every assignment the real solver produces is replayed as a model path. Exhaustive in F_47 for <=2 variable operands, boundary alphabet for 3+.",
    note="Trusts GetR1Cs/GetSparseR1Cs as the rows the backends prove (C02 checks that link for PLONK); algebraic gadgets only — statistical arguments are not decided over F_47; large-field hint substitution is bounded to <=2 departures over a finite alphabet.",
    technique="explicit-state model checking (BFS with live-wire state hashing) of compiled constraint systems over F_47 + deviation-bounded exploration of hint answers"),
+ "C20": dict(level=MC, ref="DESIGN.md §2 C20",
+   text="The prover's randomness is an environment answer: crypto/rand.Reader is replaced by a reader that identifies every draw by (gnark call site, index). Per curve, catalogue circuit, backend and statistical-ZK setting the default run discovers all draws; ALL single departures (draw := 0, draw := another value) are executed and the set of proof elements that changes is compared with the protocol's dependency matrix; every blinded element must depend on a draw and differ from the all-zero-randomness proof, whose Ar / L,R,O commitments are validated against commitments recomputed from the proving key and the wire values captured by the post-solve hook; the 1st, 2nd and 3rd proof of one process draw fresh values and differ pairwise in every blinded element.",
+   note="Decides presence, freshness and reach of every blinding draw; the distribution of the blinding (zero-knowledge proper) is not decidable by enumeration. Assumes all randomness flows through crypto/rand.Reader.",
+   technique="exhaustive single-departure exploration of the randomness environment (deviation bound 1) with a dependency-matrix oracle, plus history of 3 successive proofs"),
 }
 try:
     hooks=[l.split()[0] for l in subprocess.check_output(['git','-C','/repo','log','--format=%h %s','f97c049..HEAD']).decode().splitlines() if ' verif-hook' in l or ' hook:' in l]
